@@ -186,6 +186,9 @@ func c13OpFetch(objs []*xt.T, upd []*xt.T) *xt.T {
 func c13OpRealFetch(objs []*xt.T, upd []*xt.T) *xt.T {
 	return xt.N(xt.LI(8), xt.N(objs...), xt.N(upd...))
 }
+func c13OpPull(r, rr int, objs []*xt.T, c *xt.T, force bool, t *xt.T, nonce int) *xt.T {
+	return xt.N(xt.LI(9), xt.LI(r), xt.LI(rr), xt.N(objs...), c, xt.Bool(force), t, xt.LI(nonce))
+}
 func c13OpPrune() *xt.T                       { return xt.N(xt.LI(7)) }
 func c13Upd(r int, c *xt.T, force bool) *xt.T { return xt.N(xt.LI(r), c, xt.Bool(force)) }
 func c13PBlock(b int) *xt.T                   { return xt.N(xt.LI(0), xt.LI(b)) }
@@ -664,6 +667,94 @@ func genC13(ctx *Ctx) []Case {
 		}
 	}
 
+	// ---- `wrgl pull` through the real CLI against the reference server: a crash right before every
+	// ref-store write (remote-tracking ref, local branch), then re-run; for a branch that does not exist
+	// locally yet (also: the tracking ref already there from an earlier fetch / interrupted pull) and for
+	// an existing one (up to date, fast-forward, diverged = real merge, rejected / forced tracking ref)
+	{
+		pullCase := func(variant int, chainLen int) {
+			cb := g.newCase()
+			tabs := []c13Rows{rA, rA.with(c13Seq(2, 1, 2)), rB, rB2, rD}
+			var chain []*xt.T
+			for j := 0; j < chainLen; j++ {
+				var ps []*xt.T
+				if j > 0 {
+					ps = []*xt.T{chain[j-1]}
+				}
+				chain = append(chain, c13MkCid(cb.table(tabs[j%len(tabs)]), ps, nn()))
+			}
+			tip := chain[chainLen-1]
+			all := cb.senderSeq(chain, nil)
+			tA := cb.table(rA)
+			switch variant {
+			case 0: // first pull of the branch
+				op := c13OpPull(0, 10, all, tip, false, tA, nn())
+				cb.emit("cli-pull", true, op, op, 1, false)
+			case 1: // the tracking ref is already there (wrgl fetch before; or an interrupted first pull)
+				cb.step(c13OpRealFetch(all, []*xt.T{c13Upd(10, tip, false)}))
+				op := c13OpPull(0, 10, nil, tip, false, tA, nn())
+				cb.emit("cli-pull", true, op, op, 1, false)
+			case 2: // existing branch, fast-forward
+				cb.step(c13OpPull(0, 10, cb.senderSeq(chain[:1], nil), chain[0], false, tA, nn()))
+				var rest []*xt.T
+				if chainLen > 1 {
+					rest = cb.senderSeq(chain[1:], chain[:1])
+				}
+				op := c13OpPull(0, 10, rest, tip, false, tA, nn())
+				cb.emit("cli-pull", chainLen > 1, op, op, 1, false)
+			case 3: // existing branch with a local commit: a real merge (the local commit is unknown to
+				// the server, so nothing is common and the whole remote history is sent again)
+				cb.step(c13OpPull(0, 10, cb.senderSeq(chain[:1], nil), chain[0], false, tA, nn()))
+				mine := rA.with(c13Seq(0, 1, 1))
+				cb.step(c13OpCommit(0, cb.table(mine), nn()))
+				theirs := tabs[1]
+				merged, ok := c13Merge3(rA, mine, theirs)
+				if !ok {
+					panic("c13 gen: conflict")
+				}
+				n1 := nn()
+				op := c13OpPull(0, 10, cb.senderSeq(chain[:2], nil), chain[1], false, cb.table(merged), n1)
+				op2 := c13OpPull(0, 10, cb.senderSeq(chain[:2], nil), chain[1], false, cb.table(merged), nn())
+				cb.emit("cli-pull", true, op, op2, 1, false)
+			case 4, 5: // the remote branch was rewound and rebuilt: the tracking ref cannot fast-forward.
+				// Rejected: the pull fails before it touches the branch. Forced: the branch, still on the
+				// old history, is merged with the new one (a real merge).
+				mine := rA.with(c13Seq(0, 1, 1))
+				other := c13MkCid(cb.table(mine), []*xt.T{chain[0]}, nn())
+				cb.step(c13OpPull(0, 10, cb.senderSeq([]*xt.T{chain[0], other}, nil), other, false, tA, nn()))
+				merged, ok := c13Merge3(rA, mine, tabs[1])
+				if !ok {
+					panic("c13 gen: conflict")
+				}
+				n1 := nn()
+				op := c13OpPull(0, 10, cb.senderSeq(chain[:2], nil), chain[1], variant == 5, cb.table(merged), n1)
+				op2 := c13OpPull(0, 10, cb.senderSeq(chain[:2], nil), chain[1], variant == 5, cb.table(merged), nn())
+				cb.emit("cli-pull", true, op, op2, 1, false)
+			}
+		}
+		nvar := 3 // quick: first pull, tracking ref already there, fast-forward, real merge
+		if thorough {
+			nvar = 5
+		}
+		for variant := 0; variant <= nvar; variant++ {
+			n := 3
+			if variant >= 3 {
+				n = 2
+			}
+			pullCase(variant, n)
+		}
+		if thorough {
+			for i := 0; i < 18; i++ {
+				variant := ctx.Pick(6)
+				n := 1 + ctx.Pick(4)
+				if variant >= 3 {
+					n = 2
+				}
+				pullCase(variant, n)
+			}
+		}
+	}
+
 	// ---- CLI histories with shallow commits (wrgl pull / fetch --depth, then wrgl merge in every ff mode)
 	{
 		type scn struct{ n, depth, mode, via int }
@@ -682,6 +773,19 @@ func genC13(ctx *Ctx) []Case {
 			ts := xt.N(cb.table(rA), cb.table(rA2), cb.table(rD), cb.table(rB))
 			s := xt.N(xt.LI(sc.n), xt.LI(sc.depth), xt.LI(sc.mode), xt.LI(sc.via), ts)
 			cb.emitScn("cli-shallow", true, c13OpPrune(), c13OpPrune(), 1, false, s)
+		}
+	}
+
+	// ---- `wrgl transaction commit` on badger + sqlite with the ref store failing from write k on
+	{
+		ntx := []int{2}
+		if thorough {
+			ntx = []int{1, 2, 3, 4, 2, 3}
+		}
+		for _, nb := range ntx {
+			cb := g.newCase()
+			ts := xt.N(cb.table(rA), cb.table(rA2), cb.table(rD), cb.table(rB))
+			cb.emitScn("cli-tx", true, c13OpPrune(), c13OpPrune(), 1, false, xt.N(xt.LI(100), xt.LI(nb), ts))
 		}
 	}
 
